@@ -44,7 +44,7 @@ def dispatch (st : DriverState) (line : String) : DriverState × String :=
   | "C19P" :: rest => let (s, o) := Drive.C19.step st.c19p rest; ({ st with c19p := s }, o)
   | "C19B" :: rest => let (s, o) := Drive.C19.step st.c19b rest; ({ st with c19b := s }, o)
   | "C20" :: rest => (st, Drive.C20.step rest)
-  | "ENC" :: rest => (st, Drive.Enc.step rest)
+  | "ENC" :: rest => (st, Drive.Enc.step st.c17 rest)
   | "Q" :: rest => (st, Drive.C17.stepQ rest)
   | _ => (st, "bad-op")
 
